@@ -132,3 +132,23 @@ Definition op_render (o : op) : string * (string * string) :=
   | Rename a b => ("rename", (a, b))
   | Remove p => ("remove", (p, ""))
   end.
+
+(* ---------------------------------------------------------------- FileSync as operations (C18: what is written, and where) *)
+(* cgen.FilePreservationSyncUtil(file_from = A, file_to = B): B's new lines are written verbatim to B's temporary sibling
+   and renamed over B; a LostCode pseudo-file (A's non-empty tags that B does not have) goes through createoutput with the
+   output directory dirname(B).  Nothing else is written. *)
+Definition filesync_jobs (path_b a b : string) : list (string * list string) :=
+  let tg := collect (read_lines a) in
+  let '(out, used) := emplace true tg (read_lines b) in
+  let lost := PreserveCore.lost_code String.eqb nl nl (nl (basename path_b)) (nl lost_sep) used tg in
+  (path_b, out) ::
+  match lost with
+  | [] => []
+  | _ => createoutput_jobs (dirname path_b) [((path_b ++ lost_suffix)%string, lost)]
+  end.
+
+Definition filesync_ops (path_b a b : string) : list op :=
+  match filesync_jobs path_b a b with
+  | jb :: rest => tl (job_ops jb) ++ jobs_ops rest      (* no makedirs for B itself *)
+  | [] => []
+  end.
